@@ -179,6 +179,32 @@ func (m *memdbManager) Location() string {
 	return "in-memory"
 }
 
+// atomicBatch collects the writes of one commit or one rollback and hands them to leveldb as a
+// single write batch, so that a process which dies in between leaves either the old or the
+// new state. Reads go to the database itself.
+type atomicBatch struct {
+	*leveldb.DB
+	batch *leveldb.Batch
+}
+
+func newAtomicBatch(ldb *leveldb.DB) *atomicBatch {
+	return &atomicBatch{DB: ldb, batch: new(leveldb.Batch)}
+}
+
+// Put implements LevelDBLike; the write is deferred until commit.
+func (b *atomicBatch) Put(key []byte, value []byte, _ *opt.WriteOptions) error {
+	b.batch.Put(key, value)
+	return nil
+}
+
+// frontier is the delete-enabled view of the frontier whose writes are collected in the batch.
+func (b *atomicBatch) frontier() DB {
+	return enableDelete(&levelDBWrapper{db: b}).Subset(frontierByte)
+}
+func (b *atomicBatch) commit() error {
+	return b.DB.Write(b.batch, nil)
+}
+
 type rollbackCache struct {
 	frontier types.HashHeight
 	raw      db
@@ -362,15 +388,14 @@ func (m *ldbManager) Add(transaction Transaction) error {
 	frontierIdentifier := GetFrontierIdentifier(NewLevelDBWrapper(m.ldb).Subset(frontierByte))
 
 	if previous == frontierIdentifier {
-		if err := m.ldb.Put(common.JoinBytes(patchByte, common.Uint64ToBytes(identifier.Height)), patch.Dump(), nil); err != nil {
+		// redo patch, undo patch and the applied patch are written as one leveldb batch
+		ab := newAtomicBatch(m.ldb)
+		ab.batch.Put(common.JoinBytes(patchByte, common.Uint64ToBytes(identifier.Height)), patch.Dump())
+		ab.batch.Put(common.JoinBytes(rollbackByte, common.Uint64ToBytes(identifier.Height)), rollbackPatch.Dump())
+		if err := ApplyPatch(ab.frontier(), patch); err != nil {
 			return err
 		}
-		if err := m.ldb.Put(common.JoinBytes(rollbackByte, common.Uint64ToBytes(identifier.Height)), rollbackPatch.Dump(), nil); err != nil {
-			return err
-		}
-		if err := ApplyPatch(NewLevelDBWrapper(m.ldb).Subset(frontierByte), patch); err != nil {
-			return err
-		}
+		return ab.commit()
 	}
 	return nil
 }
@@ -378,13 +403,14 @@ func (m *ldbManager) Pop() error {
 	frontierIdentifier := GetFrontierIdentifier(m.Frontier())
 	rollbackPatch := m.getRollback(frontierIdentifier.Height)
 
-	if err := ApplyPatch(NewLevelDBWrapper(m.ldb).Subset(frontierByte), rollbackPatch); err != nil {
+	// the applied undo patch and the removal of both patches are written as one leveldb batch
+	ab := newAtomicBatch(m.ldb)
+	if err := ApplyPatch(ab.frontier(), rollbackPatch); err != nil {
 		return err
 	}
-	if err := m.ldb.Delete(common.JoinBytes(patchByte, common.Uint64ToBytes(frontierIdentifier.Height)), nil); err != nil {
-		return err
-	}
-	if err := m.ldb.Delete(common.JoinBytes(rollbackByte, common.Uint64ToBytes(frontierIdentifier.Height)), nil); err != nil {
+	ab.batch.Delete(common.JoinBytes(patchByte, common.Uint64ToBytes(frontierIdentifier.Height)))
+	ab.batch.Delete(common.JoinBytes(rollbackByte, common.Uint64ToBytes(frontierIdentifier.Height)))
+	if err := ab.commit(); err != nil {
 		return err
 	}
 
